@@ -81,7 +81,10 @@ class Deflate(object):
 
         data.append(self._decompressobj.decompress(b"\x00\x00\xff\xff"))
         payload = b''.join(data)
-        if self.reset_decompress:
+        if self.reset_decompress or self._decompressobj.unused_data:
+            # Also start afresh if the deflate stream ended (the peer
+            # sent a block with BFINAL set, see RFC 7692 7.2.3.4),
+            # a finished decompressor returns no further data.
             self.reset_decompressor()
         return payload
 
